@@ -20,3 +20,9 @@ func RaceErrors() int { return runtime.RaceErrors() }
 // RaceAcquire / RaceRelease let the sync shims publish their edges.
 func RaceAcquire(p unsafe.Pointer) { runtime.RaceAcquire(p) }
 func RaceRelease(p unsafe.Pointer) { runtime.RaceRelease(p) }
+
+// RaceWriteRange / RaceReadRange mirror what package syscall does for real
+// reads and writes: the buffer handed to Read is written, the one handed to
+// Write is read, as far as the detector is concerned.
+func RaceWriteRange(p unsafe.Pointer, n int) { runtime.RaceWriteRange(p, n) }
+func RaceReadRange(p unsafe.Pointer, n int)  { runtime.RaceReadRange(p, n) }
